@@ -386,6 +386,67 @@ def fam_refusals():
                     yield case("refusals", spec, genome, parent, crc, fasta, legs=(1,))
 
 
+# ---- family: shared (the same qualifier key on a parent and on its child) ------------------------------------------------------------
+def fam_shared():
+    """gene vs transcript (coding / non-coding / both) and feature collection vs feature: the same key with every pair of value
+    sets of size 1-2 over three values (equal, disjoint, nested, overlapping; both orders)"""
+    genome = GENOME64[:12]
+    vals = ("a", "b", "c")
+    sets = [[x] for x in vals] + [list(c) for c in itertools.combinations(vals, 2)]
+    for pv in sets:
+        for cv in sets:
+            for where in ("tx_cds", "tx_nc", "both"):
+                t0 = tx_spec(((1, 4), (6, 10)), "+", (1, 7), 0, tid="t0", sym="ts0", pid="p0", product="prod0",
+                             quals={"note": cv} if where in ("tx_cds", "both") else None)
+                t1 = tx_spec(((1, 10),), "-", None, tid="t1", sym="ts1", ttype="protein_coding",
+                             quals={"note": cv[::-1]} if where in ("tx_nc", "both") else None)
+                g = gene_spec([t0, t1], gtype="protein_coding", quals={"note": pv})
+                yield case("shared", coll_spec([g]), genome, "chrom", True, True, shared=[pv, cv, where])
+            f = feat_spec(((0, 3), (8, 12)), "-", types=["ft0"], quals={"note": cv})
+            yield case("shared", coll_spec(None, [fc_spec([f], quals={"note": pv})]), genome, "chrom", True, False, shared=[pv, cv, "feature"])
+
+
+# ---- family: long (>= 10 CDS blocks, frames cycling) -----------------------------------------------------------------------------------
+def fam_long(patterns, placements):
+    """transcripts with 10, 11 and 12 exons of 1-3 bases separated by 1-base introns (exon lengths repeat ``pattern``), both
+    strands, start frames 0-2; CDS over the whole transcript (and, with placements='ends', minus one base on either side)"""
+    for pat in patterns:
+        for nb in (10, 11, 12):
+            exons, pos = [], 1
+            for i in range(nb):
+                ln = pat[i % len(pat)]
+                exons.append((pos, pos + ln))
+                pos += ln + 1
+            if pos > len(GENOME64):
+                continue
+            total = sum(e - s for s, e in exons)
+            pls = [(0, total)] if placements == "full" else [(0, total), (1, total), (0, total - 1)]
+            for strand in "+-":
+                for cds in pls:
+                    for f0 in (0, 1, 2):
+                        t = tx_spec(tuple(exons), strand, cds, f0, pid="p0", product="prod0")
+                        yield case("long", coll_spec([gene_spec([t])]), GENOME64[:pos], "chrom", True, True, pattern=list(pat), nblocks=nb)
+
+
+# ---- family: trunc (chunk window cutting the 3' end of the transcript) ------------------------------------------------------------------
+def fam_trunc(N, k):
+    """every coding/non-coding single-transcript gene over layouts(N, k) x every chunk window that removes a non-empty part of the
+    3' end and nothing of the 5' end: plus strand [0, b) with lo < b < hi, minus strand [a, N) with lo < a < hi; chunk-relative
+    export without FASTA; leg 1 restricted to syntax, exon/CDS rows and phase"""
+    genome = GENOME64[:N]
+    for exons, strand, cds, f0 in transcripts(N, k):
+        lo, hi = exons[0][0], exons[-1][1]
+        t = tx_spec(exons, strand, cds, f0, pid="p0" if cds else None, product="prod0" if cds else None)
+        spec = coll_spec([gene_spec([t])])
+        wins = [(0, b) for b in range(lo + 1, hi)] if strand == "+" else [(a, N) for a in range(lo + 1, hi)]
+        for a, b in wins:
+            yield case("trunc", spec, genome, ["chunk", a, b], False, False, legs=(1,), trunc=True)
+
+
+PATTERNS_QUICK = [(1,), (2,), (1, 2, 3), (2, 1), (3, 1, 2)]
+PATTERNS_ALL = [p for n in (1, 2, 3) for p in itertools.product((1, 2, 3), repeat=n)]
+
+
 def world(tier):
     if tier == "quick":
         yield from fam_struct(4, 3, all_windows=False, chunk_full="none", reduced_frames=True)
@@ -394,6 +455,8 @@ def world(tier):
         yield from fam_coll(2)
         yield from fam_featcoll(4, 2, 2)
         yield from fam_strings(strings(), all_positions_full=False)
+        yield from fam_long(PATTERNS_QUICK, "full")
+        yield from fam_trunc(5, 2)
     else:
         yield from fam_struct(7, 3, all_windows=True)
         yield from fam_frames(6, 3)
@@ -401,6 +464,9 @@ def world(tier):
         yield from fam_coll(3)
         yield from fam_featcoll(7, 3, 3)
         yield from fam_strings(strings(), all_positions_full=True)
+        yield from fam_long(PATTERNS_ALL, "ends")
+        yield from fam_trunc(7, 3)
+    yield from fam_shared()
     yield from fam_reserved()
     yield from fam_ids()
     yield from fam_fasta()
@@ -408,7 +474,12 @@ def world(tier):
 
 
 def describe(tier):
-    tail = ("reserved keys x flag; missing identifiers; biotype combinations; FASTA lengths / multi-sequence files; refused flag combinations. "
+    tail = ("shared: the same qualifier key on gene and transcript(s) / feature collection and feature with all pairs of value sets of size "
+            "1-2; " + ("long: 10-12 CDS blocks, 5 exon-length patterns, both strands, start frames 0-2; trunc: layouts N=5 k<=2 x every "
+                       "3'-truncating chunk window (leg 1: rows and phase); " if tier == "quick" else
+                       "long: 10-12 CDS blocks, all 39 exon-length patterns of period <=3, 3 CDS placements, both strands, start frames 0-2; "
+                       "trunc: layouts N=7 k<=3 x every 3'-truncating chunk window (leg 1: rows and phase); ") +
+            "reserved keys x flag; missing identifiers; biotype combinations; FASTA lengths / multi-sequence files; refused flag combinations. "
             "Legs 2/3 only on collections without feature collections")
     if tier == "quick":
         return ("struct: layouts N=4 k<=3 x strands x every CDS placement x start frames 0-2 (single-transcript genes; legs 2/3: frame 0, and frames 1-2 on full-length CDS) x export modes (chunk "
